@@ -1174,7 +1174,7 @@ pub fn apply(c: &mut Chain, tx: &Value) -> Outcome {
                     update_reward_index_addr: "updater".into() }).unwrap())
             } else {
                 c.instantiate(Kind::Dispatcher, "dispatcher", sender, to_json_binary(&basset_sei_rewards_dispatcher::msg::InstantiateMsg {
-                    hub_contract: "hub".into(), bsei_reward_contract: "reward".into(), stsei_reward_denom: "usei".into(), bsei_reward_denom: "kusd".into(),
+                    hub_contract: "hub".into(), bsei_reward_contract: "reward".into(), stsei_reward_denom: tx["stdenom"].as_str().unwrap_or("usei").into(), bsei_reward_denom: "kusd".into(),
                     krp_keeper_address: "keeper".into(), krp_keeper_rate: dec_of(&tx["rate"]), swap_contract: "swap".into(),
                     swap_denoms: vec!["usei".into(), "kusd".into(), "ufor".into()], oracle_contract: "oracle".into() }).unwrap())
             };
